@@ -408,6 +408,16 @@ def random_prior(rng, d, G, zero_first=None, zeros=0.05):
     return pr
 
 
+def random_eps(rng, grid):
+    """eps classes: the usual small offsets, and (30%) a LARGE one, comparable to the grid spacing
+    ({0.1, 0.3, 1, 3} x the median spacing), where an offset and e.g. a floor give different answers"""
+    if rng.random() < 0.3:
+        gaps = sorted(b - a for a, b in zip(grid, grid[1:]))
+        med = gaps[len(gaps) // 2] if gaps else 1.0
+        return round(rng.choice([0.1, 0.3, 1.0, 3.0]) * med, 6)
+    return rng.choice([1e-6, 1e-8, 1e-3, 0.1])
+
+
 def make_case(rng, d, grid=None, space=None, eps=None, mu=None, offedge=None, exotic=None, **opts):
     # half of the cases carry 1-3 mutations above a (local) root: they are on no edge
     if offedge is None:
@@ -437,7 +447,7 @@ def make_case(rng, d, grid=None, space=None, eps=None, mu=None, offedge=None, ex
         "prior": random_prior(rng, d, G),
         "nonfixed_order": order,
         "mu": mu if mu is not None else round(rng.choice([0.2, 1.0, 3.0]) / span, 6),
-        "eps": eps if eps is not None else rng.choice([1e-6, 1e-8, 1e-3, 0.1]),
+        "eps": eps if eps is not None else random_eps(rng, grid),
         "space": space or rng.choice([LIN, LOG]),
         "offedge_mutations": len(d["mutations"]) - sum(edge_mutation_counts(d)),
         "exotic": applied,
